@@ -226,9 +226,19 @@ def atom_of(t, truth):
             return _succ_norm(("lt", b, a))
         if op == "Ge":
             return _succ_norm(("le", b, a))
-        x, y = sorted([a, b], key=repr)
-        return ("eq" if op == "Eq" else "ne", x, y)
+        return eq_atom("eq" if op == "Eq" else "ne", a, b)
     return ("holds" if truth else "nholds", t)
+
+
+def eq_atom(kind, a, b):
+    """`x - y == 0` is `x == y` (no underflow, the standing assumption): one spelling for both"""
+    for u, v in ((a, b), (b, a)):
+        if v[0] == "int" and v[1] == 0 and isinstance(u, tuple) and len(u) == 4 and u[0] == "bin" and u[1] == "Sub" \
+                and not (u[3][0] == "int"):
+            a, b = u[2], u[3]
+            break
+    x, y = sorted([a, b], key=repr)
+    return (kind, x, y)
 
 
 def _plus_one(t):
